@@ -577,6 +577,52 @@ pub fn run_full_channel(prop: &str, k: u64, trace: bool) -> CaseResult {
     res
 }
 
+/// Shutdown on a dual-stack interface: the goodbye for a registered service goes out over every
+/// IP family the service was announced over.  x = [service addresses: 0 IPv4 / 1 IPv6 / 2 both].
+fn run_goodbye_families(x: u64, trace: bool) -> CaseResult {
+    let mut res = CaseResult::default();
+    let mut w = World::one(lay_dual());
+    w.trace = trace;
+    w.ds[0].h.set_ip_check_interval(0).unwrap();
+    w.poke(0);
+    let ips = ["10.0.0.5", "fd00::5", "10.0.0.5,fd00::5"][x as usize];
+    w.ds[0].h.register(svc("_t._tcp.local.", "One", "myhost.local.", ips, 80, &[])).unwrap();
+    w.poke(0);
+    w.advance(3000);
+    let inst = n("One._t._tcp.local");
+    let ty = n("_t._tcp.local");
+    let names_it = |m: &Msg, ttl0: bool| m.is_response() && m.answers.iter().any(|r| r.rtype == T_PTR && (r.ttl == 0) == ttl0 && name_eq_ci(&r.name, &ty) && matches!(&r.rd, RD::Ptr(t) if name_eq_ci(t, &inst)));
+    // families it was announced over
+    let announced: Vec<bool> = [false, true].iter().map(|v6| outs(&w, 0, 0).iter().any(|(_, o)| o.dst.is_ipv6() == *v6 && o.msg.as_ref().is_ok_and(|m| names_it(m, false)))).collect();
+    let lix = w.log.len();
+    let rx = w.ds[0].h.shutdown().unwrap();
+    w.poke(0);
+    for _ in 0..10 {
+        if !matches!(w.ds[0].state, StepOut::Parked) {
+            break;
+        }
+        w.step(0);
+    }
+    let got = matches!(rx.try_recv(), Ok(DaemonStatus::Shutdown));
+    for (k, fam) in ["IPv4", "IPv6"].iter().enumerate() {
+        let goodbyes = outs(&w, 0, lix).iter().filter(|(_, o)| o.dst.is_ipv6() == (k == 1) && o.is_multicast() && o.msg.as_ref().is_ok_and(|m| names_it(m, true))).count();
+        res.count("families_checked", 1);
+        if announced[k] && goodbyes != 1 {
+            res.viols.push(viol(format!("C14|goodbye-at-shutdown-count|{fam}|{}", goodbyes.min(2)), format!("service with addresses {ips} on a dual-stack interface, announced over {fam}: {goodbyes} goodbye(s) over {fam} at shutdown (status received: {got})")));
+        }
+        if !announced[k] && goodbyes != 0 {
+            res.viols.push(viol(format!("C14|goodbye-at-shutdown-where-never-announced|{fam}"), format!("addresses {ips}")));
+        }
+        if announced[k] {
+            res.count("goodbyes_expected", 1);
+        }
+    }
+    res.nontrivial = true;
+    res.transitions = w.steps;
+    res.outcome = outcome_hash(&w.log);
+    res
+}
+
 pub fn check(tier: &str) -> i32 {
     let mut rep = Report::new("C14", tier, "model_checking");
     let thorough = rep.thorough();
@@ -652,5 +698,14 @@ pub fn check(tier: &str) -> i32 {
     rep.require("one-command-and-shutdown", "reply_receivers_checked");
     rep.require("one-command-and-shutdown", "window_calls");
     rep.require("one-command-and-shutdown", "blocking_calls_returned");
+    let gf = FnPart {
+        name: "shutdown-goodbye-over-every-family".into(),
+        rule: "a dual-stack interface; a service with (an IPv4 | an IPv6 | both) address(es), announced; shutdown: exactly one goodbye over every IP family the service was announced over, none elsewhere".into(),
+        n: 3,
+        describe: Box::new(|i| format!("addresses {}", ["IPv4", "IPv6", "both"][i as usize])),
+        run: Box::new(|i, tr| run_goodbye_families(i, tr)),
+    };
+    rep.run_part(&gf, Duration::from_secs(60));
+    rep.require("shutdown-goodbye-over-every-family", "goodbyes_expected");
     rep.finish()
 }
